@@ -237,8 +237,7 @@ def parseDeqOut : String → Option DeqOut
   | "panic" => some .panic
   | _ => none
 
-def showDeqOut : DeqOut → String
-  | .t => "t" | .f => "f" | .panic => "panic"
+-- `showDeqOut` lives in InspectorModel/Spec/CopyObs.lean
 
 instance : BEq DeqOut := ⟨fun a b => decide (a = b)⟩
 
@@ -314,16 +313,11 @@ def opDeq (st : St) (head identToks optToks outToks : List String) : String :=
     | _, _, _, _, _, _, _, _ => "skip unresolved-input"
   | _, _, _ => "skip bad-record"
 
-/-- Observation of a Copy / CopyTo / Reset call. -/
-inductive CpObs
-  | ok (shared : Nat) (deq : String) (same : Bool) (v : Val)
-  | other (tag : String)
+-- `CpObs`, `copyObsOfWith`, `cpAccepts`, `resetObsOfWith`, `resetAccepts`, `cycleModelWith`, `cycleAccepts`
+-- live in InspectorModel/Spec/CopyObs.lean (the C06 / C08 theorems are stated about them)
 
-def CpObs.beq : CpObs → CpObs → Bool
-  | .ok s d m v, .ok s' d' m' v' => s == s' && d == d' && m == m' && v == v'
-  | .other a, .other b => a == b
-  | _, _ => false
-instance : BEq CpObs := ⟨CpObs.beq⟩
+/-- The normalisation applied to every value before observations are compared. -/
+def normV (v : Val) : Val := canon (dropCaps v)
 
 def cpIsPanic : CpObs → Bool
   | .other t => t == "panic"
@@ -341,21 +335,7 @@ def parseCpObs (n : Node) : List String → Option CpObs
   | _ => none
 
 def copyObsOf (cfg : GenCfg) (n : Node) (src : Val) (o : CopyOut) : CpObs :=
-  match o with
-  | .ok v s =>
-    -- pointer-typed map keys of the copy are found by DeepEqual exactly when the copy shares them
-    let d := showDeqOut (deqM { cfg := cfg, ident := cfg.copyPtrShared } n .ptr .ptr src v)
-    .ok s d true (canon (dropCaps v))
-  | .panic => .other "panic"
-  | .unsupported => .other "unsupported"
-  | .mustPointer => .other "mustpointer"
-
-def cpAccepts (n : Node) (src : Val) (expectRefusal : Option String) (o : CpObs) : Bool :=
-  match expectRefusal, o with
-  | some t, .other t' => t == t'
-  | some _, _ => false
-  | none, .ok s d m v => copyAccepts n src v s (d == "t") m
-  | none, .other _ => false
+  copyObsOfWith normV cfg n src o
 
 /-- CP <tid> <form> <vid> | - | <obs> -/
 def opCopy (st : St) (head outToks : List String) : String :=
@@ -365,8 +345,10 @@ def opCopy (st : St) (head outToks : List String) : String :=
     | some n, some v, some f =>
       (match parseCpObs n outToks with
        | some impl =>
-         let refusal := match f with | .foreign | .untypedNil => some "unsupported" | _ => none
-         let nilRoot := match rootOf f with | .ok | .early => false | _ => true
+         let refusal := copyRefusal f
+         let nilRoot := copyNilRoot f
+         -- hypothesis of C06.copy_correct (maps are duplicate-free), evaluated on every input
+         if rootOf f == .ok && !KeysOK false n v then "dev-ok hypothesis KeysOK of copy_correct does not hold for this value" else
          classify st (fun c => copyObsOf c n v (copyM c n f v)) (fun o => nilRoot || cpAccepts n v refusal o) impl showCpObs cpIsPanic
            (if rootOf f == .ok then some (fun c => copyObsOf c n v (copyM c n .ptr v)) else none) (match rootOf f with | .nilX | .panic => true | _ => false)
        | none => "skip unparsable-outcome")
@@ -381,23 +363,18 @@ def opCopyTo (st : St) (head outToks : List String) : String :=
     | some n, some src, some dst, some fs, some fd =>
       (match parseCpObs n outToks with
        | some impl =>
-         let refusal := match fs, fd with
-           | .foreign, _ | .untypedNil, _ => some "unsupported"
-           | _, .val => some "mustpointer"
-           | _, .foreign | _, .untypedNil => some "unsupported"
-           | _, _ => none
+         let refusal := copyToRefusal fs fd
+         -- hypotheses of C06.copyTo_correct: an empty destination (no non-nil pointer, no populated collection)
+         -- (under C02's `nopanic` mode the theorem is copyTo_no_panic, which needs a well-typed destination only)
+         if refusal.isNone && !copyToNilRoot fs fd && !(WT n dst && (st.mode == "nopanic" || (dstOK false dst && KeysOK false n src))) then
+           "dev-ok hypothesis WT/dstOK/KeysOK of copyTo_correct does not hold for this input" else
          classify st (fun c => copyObsOf c n src (copyToM c n fs fd src dst)) (cpAccepts n src refusal) impl showCpObs cpIsPanic none
-           ((match rootOf fs with | .nilX | .panic => true | _ => false) || (match rootOf fd with | .nilX | .panic => true | _ => false))
+           (copyToNilRoot fs fd)
        | none => "skip unparsable-outcome")
     | _, _, _, _, _ => "skip unresolved-input"
   | _ => "skip bad-head"
 
-def resetObsOf (o : ResetOut) : CpObs :=
-  match o with
-  | .ok v => .ok 0 "-" true (canon (dropCaps v))
-  | .panic => .other "panic"
-  | .unsupported => .other "unsupported"
-  | .mustPointer => .other "mustpointer"
+def resetObsOf (o : ResetOut) : CpObs := resetObsOfWith normV o
 
 /-- RS <tid> <form> <vid> | - | ok <val> | panic | … -/
 def opReset (st : St) (head outToks : List String) : String :=
@@ -411,28 +388,13 @@ def opReset (st : St) (head outToks : List String) : String :=
         | _ => none
       (match impl with
        | some impl =>
-         let acc (o : CpObs) : Bool :=
-           match f, o with
-           | .val, .other t => t == "mustpointer"
-           | .foreign, .other t | .untypedNil, .other t => t == "unsupported"
-           | .ptr, .ok _ _ _ x | .ptrptr, .ok _ _ _ x => isEmptyV x
-           | .nilPtr, _ | .ptrNilPtr, _ | .nilPtrPtr, _ => true
-           | _, _ => false
-         classify st (fun c => resetObsOf (resetM c n f v)) acc impl showCpObs cpIsPanic none (match rootOf f with | .nilX | .panic => true | _ => false)
+         classify st (fun c => resetObsOf (resetM c n f v)) (resetAccepts f) impl showCpObs cpIsPanic none (match rootOf f with | .nilX | .panic => true | _ => false)
        | none => "skip unparsable-outcome")
     | _, _, _ => "skip unresolved-input"
   | _ => "skip bad-head"
 
 /-- One step of a cycle as observed: destination after Reset and after CopyTo. -/
-def cycleModel (cfg : GenCfg) (n : Node) : Val → List Val → List CpObs
-  | _, [] => []
-  | d, s :: rest =>
-    match resetN cfg n d with
-    | .panic => [.other "panic"]
-    | .ok r =>
-      match copyN cfg n true r s with
-      | .panic => [.ok 0 "r" true (canon (dropCaps r)), .other "panic"]
-      | .ok c _ => .ok 0 "r" true (canon (dropCaps r)) :: .ok 0 "c" true (canon (dropCaps c)) :: cycleModel cfg n c rest
+def cycleModel (cfg : GenCfg) (n : Node) : Val → List Val → List CpObs := cycleModelWith normV cfg n
 
 partial def parseCycleSteps (n : Node) : List (List String) → Option (List CpObs)
   | [] => some []
@@ -449,13 +411,6 @@ partial def parseCycleSteps (n : Node) : List (List String) → Option (List CpO
       let more ← parseCycleSteps n rest
       pure (here ++ more)
 
-/-- C08: after every Reset the destination is empty; after every CopyTo it is the cycle's source up to
-nil/empty identification. -/
-def cycleAccepts : List Val → List CpObs → Bool
-  | [], [] => true
-  | s :: rest, .ok _ "r" _ r :: .ok _ "c" _ c :: more => isEmptyV r && approxEq s c && cycleAccepts rest more
-  | _, _ => false
-
 instance : BEq (List CpObs) := ⟨fun a b => a.length == b.length && (a.zip b).all fun (x, y) => x == y⟩
 
 /-- CY <tid> <vd0> <vs1> … | <bufclass> | <step> | <step> … -/
@@ -466,6 +421,9 @@ def opCycle (st : St) (parts : List (List String)) : String :=
     | some n, some d0, some srcs =>
       (match parseCycleSteps n steps with
        | some impl =>
+         -- hypotheses of C08.cycle_correct
+         if !(WT n d0 && srcs.all (fun s => WT n s && KeysOK true n s)) then
+           "dev-ok hypothesis WT/KeysOK of cycle_correct does not hold for this history" else
          classify st (fun c => cycleModel c n d0 srcs) (cycleAccepts srcs) impl
            (fun l => " / ".intercalate (l.map showCpObs)) (fun l => l.any cpIsPanic)
        | none => "skip unparsable-outcome")
